@@ -41,6 +41,12 @@ def pat_kind_matches(p, kind):
     return False
 
 
+def _root_is_param(e, idx):
+    while e[0] in ("field", "as", "cast"):
+        e = e[1] if e[0] != "cast" else e[2]
+    return e[0] == "param" and e[1] == idx
+
+
 def run(ctx):
     res = Result("C16")
     db = ctx.db("quil_rs")
@@ -229,6 +235,23 @@ def run(ctx):
     # in-place replacement of a redefined calibration (shared with C08)
     from qv.props.c08 import in_place_replace_rule
     in_place_replace_rule(db, res)
+    # R5 "identical signature": has_signature is an equality of the whole signature.  Accepted: `self.signature() == *sig`;
+    # a hand-written comparison is accepted too unless it compares a derived property of a component (is_some, len,
+    # starts_with, ...) instead of the component: then two different signatures replace each other
+    WEAK = ("is_some", "is_none", "len", "is_empty", "starts_with", "ends_with", "contains", "eq_ignore_ascii_case", "to_lowercase", "to_uppercase", "first", "last", "count")
+    nsig = 0
+    for hs in [f_ for f_ in db.fns if f_.name == "has_signature" and "calibration" in f_.path]:
+        nsig += 1
+        short = (hs.impl_self_path() or hs.path).rsplit("::", 1)[-1]
+        key = "K8|signature-equality|%s" % short
+        ret = fn_expr_local(hs, 0)
+        whole = ret[0] == "call" and ret[1].rsplit("::", 1)[-1] in ("eq", "ne") and any(a[0] == "call" and a[1].rsplit("::", 1)[-1] == "signature" for a in ret[2]) and any(_root_is_param(a, 2) for a in ret[2])
+        weak = sorted({c.get("name") for g_ in [hs] + db.closures_of(hs) for bb, t, c in g_.calls() if c and c.get("name") in WEAK})
+        ok = whole or not weak
+        res.site(key, True, {"whole_signature_equality": whole, "derived_property_comparisons": weak, "verdict": "ok" if ok else "VIOLATION"})
+        if not ok:
+            res.find(key, hs.loc(), "%s::has_signature compares a derived property of a signature component (%s) instead of the component: calibrations with different signatures count as identical and replace each other" % (short, weak), "`DEFCAL MEASURE q addr`, `DEFCAL MEASURE r addr`, `DEFCAL MEASURE q dest`: the third overwrites the first in place and `MEASURE 0 ro` picks the second")
+    res.count("signature_predicates", nsig, floor=2)
     res.explanation = "Field coverage of the matcher (MIR reads of both operands), first-match evaluation of the per-qubit table from the source arms against the documented table, and the tie / order / preference structure of both lookup functions."
     res.assumptions = ["iter_calibrations / iter_measure_calibrations iterate in definition order (C08)"]
     return res
